@@ -17,6 +17,7 @@ Inductive case :=
 | CIsNum (which : Z) (args : list jv) (obs : Z)          (* 0 isNaN, 1 isFinite; obs 0/1 *)
 | CStr (fns : list Z) (input : list Z) (obs : Z * list Z)
 | CThrow (fn : Z) (vals : list Z) (k kind : Z) (obs : Z * Z)
+| CSlope (fn x1 x2 o1 o2 : Z)                            (* local slope between two close arguments *)
 | CCount (fn : Z) (vals : list Z) (obs : Z)
   (* fn (Math id or 100.. as for CThrow) called with |vals| arguments, each an object that logs its
      conversion (valueOf for ToNumber, toString for ToString) and yields vals[i]: obs = how many
@@ -135,6 +136,11 @@ Definition verdict (c : case) : Z * Z :=
       end
   | CStr fns input obs =>
       judge res_eqb obs (chain apply_model fns input) (chain apply_spec fns input) (chain_class fns input)
+  | CSlope fn x1 x2 o1 o2 =>
+      match slope_spec fn x1 x2 o1 o2 with
+      | Some b => judge Bool.eqb b true true 0
+      | None => declined
+      end
   | CCount fn vals obs => judge Z.eqb obs (conv_model fn vals) (conv_spec fn vals) 10
   | CStrId fns input _ obs =>
       judge zz_eqb obs (fst (chain apply_model fns input), 1) (fst (chain apply_spec fns input), 1)
